@@ -510,7 +510,7 @@ impl super::Executor for PortLoopExec {
         else {
             return "bad-op".into();
         };
-        let s = Scn { theta0, eps_ppm: eps, delay, jitter, log_sync: ls as i32, log_dreq: ld as i32, duration_s: dur as i64, inflight: false };
+        let s = Scn { theta0, eps_ppm: eps, delay, jitter, log_sync: ls as i32, log_dreq: ld as i32, duration_s: dur as i64, inflight: false, p2p: false };
         let r = run(&Prng::new(seed), &s, late != 0);
         if let Some(p) = r.panicked {
             return format!("panic {p}");
